@@ -1,13 +1,13 @@
 //! Glue between the plain-data cases and linfa's k-means, plus the obligations shared by all
 //! sub-checks (structure of the model, arg-min of predict/transform, statistics of a converged run).
 
-use crate::cases::{Data, Init, Metric};
+use crate::cases::{Data, Init, Layout, Metric};
 use crate::oracle::*;
 use linfa::traits::{Fit, Predict, Transformer};
 use linfa::{DatasetBase, Float};
 use linfa_clustering::{KMeans, KMeansInit};
 use linfa_nn::distance::Distance;
-use ndarray::{Array1, Array2};
+use ndarray::{s, Array1, Array2, ArrayView2, ShapeBuilder};
 use rand::{Error, RngCore};
 use rand_xoshiro::rand_core::SeedableRng;
 use rand_xoshiro::Xoshiro256Plus;
@@ -57,7 +57,7 @@ impl RngCore for CountRng {
 }
 
 pub struct Prep<F> {
-    pub arr: Array2<F>,
+    pub recs: Laid<F>,
     pub xf: Vec<Vec<F>>,
     pub x64: M64,
     pub n: usize,
@@ -93,6 +93,49 @@ pub fn to_arr<F: Float>(rows: &[Vec<F>], p: usize) -> Array2<F> {
     Array2::from_shape_fn((rows.len(), p), |(i, j)| rows[i][j])
 }
 
+/// value put into the rows a strided view skips; reading it shows up as a wrong result
+const FILLER: f64 = -12345.678;
+
+/// A logical n×p matrix stored in one of the three layouts.
+pub struct Laid<F> {
+    pub store: Array2<F>,
+    pub strided: bool,
+    pub layout: Layout,
+}
+
+impl<F: Float> Laid<F> {
+    pub fn build(rows: &[Vec<F>], p: usize, layout: Layout) -> Self {
+        let n = rows.len();
+        let store = match layout {
+            Layout::RowMajor => to_arr(rows, p),
+            Layout::ColMajor => Array2::from_shape_fn((n, p).f(), |(i, j)| rows[i][j]),
+            Layout::Strided => Array2::from_shape_fn((2 * n, p), |(i, j)| if i % 2 == 0 { rows[i / 2][j] } else { F::cast(FILLER) }),
+        };
+        Laid { store, strided: layout == Layout::Strided, layout }
+    }
+    pub fn view(&self) -> ArrayView2<'_, F> {
+        if self.strided {
+            self.store.slice(s![..;2, ..])
+        } else {
+            self.store.view()
+        }
+    }
+    /// the layout really differs from the standard one (needs >= 2 rows and >= 2 columns)
+    pub fn nonstandard(&self) -> bool {
+        !self.view().is_standard_layout()
+    }
+}
+
+/// precomputed centroid matrix (always owned: `KMeansInit::Precomputed` takes an `Array2`)
+pub fn centroid_matrix<F: Float>(rows: &[Vec<F>], p: usize, layout: Layout) -> Array2<F> {
+    let k = rows.len();
+    match layout {
+        Layout::RowMajor => to_arr(rows, p),
+        Layout::ColMajor => Array2::from_shape_fn((k, p).f(), |(i, j)| rows[i][j]),
+        Layout::Strided => Array2::from_shape_fn((p, k), |(j, i)| rows[i][j]).t().to_owned(),
+    }
+}
+
 pub fn from_arr<F: Float>(a: &Array2<F>) -> Vec<Vec<F>> {
     a.rows().into_iter().map(|r| r.iter().copied().collect()).collect()
 }
@@ -102,7 +145,7 @@ pub fn prep<F: Float>(d: &Data) -> Prep<F> {
     let xf: Vec<Vec<F>> = conv_rows(&d.rows, &xf_);
     let p = d.rows.first().map(|r| r.len()).unwrap_or(0);
     Prep {
-        arr: to_arr(&xf, p),
+        recs: Laid::build(&xf, p, d.layout),
         x64: to64(&xf),
         n: xf.len(),
         p,
@@ -122,12 +165,12 @@ pub struct Fitted<F: Float, D: Distance<F>> {
     pub inertia: f64,
 }
 
-pub fn linfa_init<F: Float>(init: &Init, x: &Xform, p: usize) -> KMeansInit<F> {
+pub fn linfa_init<F: Float>(init: &Init, x: &Xform, p: usize, layout: Layout) -> KMeansInit<F> {
     match init {
         Init::Random => KMeansInit::Random,
         Init::PlusPlus => KMeansInit::KMeansPlusPlus,
         Init::Para => KMeansInit::KMeansPara,
-        Init::Precomputed(c0) => KMeansInit::Precomputed(to_arr(&conv_rows::<F>(c0, x), p)),
+        Init::Precomputed(c0) => KMeansInit::Precomputed(centroid_matrix(&conv_rows::<F>(c0, x), p, layout)),
     }
 }
 
@@ -151,33 +194,60 @@ pub fn fit<F: Float, D: Distance<F>, R: rand::Rng + Clone>(
     rng: R,
     dist: D,
     init: &Init,
+    c0_layout: Layout,
+    max_iter: u64,
+    tol: f64,
+    n_runs: usize,
+) -> Option<Fitted<F, D>> {
+    fit_on(obs, pr, &pr.recs, k, rng, dist, init, c0_layout, max_iter, tol, n_runs)
+}
+
+/// `fit` on an explicitly given storage of the training records (row-major twin, ...)
+#[allow(clippy::too_many_arguments)]
+pub fn fit_on<F: Float, D: Distance<F>, R: rand::Rng + Clone>(
+    obs: &mut Obs,
+    pr: &Prep<F>,
+    recs: &Laid<F>,
+    k: usize,
+    rng: R,
+    dist: D,
+    init: &Init,
+    c0_layout: Layout,
     max_iter: u64,
     tol: f64,
     n_runs: usize,
 ) -> Option<Fitted<F, D>> {
     limit_pool();
-    let li = linfa_init::<F>(init, &pr.xf_, pr.p);
-    let ds = DatasetBase::from(pr.arr.clone());
+    let li = linfa_init::<F>(init, &pr.xf_, pr.p, c0_layout);
+    let params = KMeans::params_with(k, rng, dist)
+        .n_runs(n_runs)
+        .tolerance(F::cast(tol))
+        .max_n_iterations(max_iter)
+        .init_method(li);
     let r = obs.call("fit", || {
-        KMeans::params_with(k, rng, dist)
-            .n_runs(n_runs)
-            .tolerance(F::cast(tol))
-            .max_n_iterations(max_iter)
-            .init_method(li)
-            .fit(&ds)
-            .map_err(|e| e.to_string())
+        if recs.strided {
+            params.fit(&DatasetBase::from(recs.view())).map_err(|e| e.to_string())
+        } else {
+            params.fit(&DatasetBase::from(recs.store.clone())).map_err(|e| e.to_string())
+        }
     })?;
     match r {
         Err(e) => {
             obs.fail("fit:error", format!("fit returned an error for valid hyper-parameters: {e}"));
             None
         }
-        Ok(model) => {
+        Ok(model) => Some(fitted_of(model)),
+    }
+}
+
+pub fn fitted_of<F: Float, D: Distance<F>>(model: KMeans<F, D>) -> Fitted<F, D> {
+    {
+        {
             let cent = from_arr(model.centroids());
             let cent64 = to64(&cent);
             let counts = model.cluster_count().iter().map(|v| v.to_f64().unwrap_or(f64::NAN)).collect();
             let inertia = model.inertia().to_f64().unwrap_or(f64::NAN);
-            Some(Fitted { model, cent, cent64, counts, inertia })
+            Fitted { model, cent, cent64, counts, inertia }
         }
     }
 }
@@ -233,6 +303,7 @@ pub fn check_assignment<F: Float, D: Distance<F>>(
     metric: Metric,
     f: &Fitted<F, D>,
     pts: &[Vec<F>],
+    layout: Layout,
     what: &str,
 ) -> AssignStats {
     let mut st = AssignStats::default();
@@ -240,13 +311,25 @@ pub fn check_assignment<F: Float, D: Distance<F>>(
         return st;
     }
     let k = f.cent.len();
-    let arr = to_arr(pts, pr.p);
+    let laid = Laid::build(pts, pr.p, layout);
     let p64 = to64(pts);
-    let batch: Option<Array1<usize>> = obs.call("predict", || f.model.predict(&arr));
-    let trans: Option<Array1<F>> = obs.call("transform", || f.model.transform(&arr));
+    let batch: Option<Array1<usize>> = obs.call("predict", || if laid.strided { f.model.predict(&laid.view()) } else { f.model.predict(&laid.store) });
+    let trans: Option<Array1<F>> = obs.call("transform", || if laid.strided { f.model.transform(&laid.view()) } else { f.model.transform(&laid.store) });
     let singles: Option<Vec<usize>> = obs.call("predict_single", || {
-        arr.rows().into_iter().map(|r| -> usize { f.model.predict(&r) }).collect()
+        laid.view().rows().into_iter().map(|r| -> usize { f.model.predict(&r) }).collect()
     });
+    if layout != Layout::RowMajor {
+        // same values, same per-row arithmetic: the reduced distances must be bit-identical to
+        // those of the row-major twin of the batch
+        let twin = to_arr(pts, pr.p);
+        let t2: Option<Array1<F>> = obs.call("transform", || f.model.transform(&twin));
+        if let (Some(a), Some(b)) = (&trans, &t2) {
+            let same = a.len() == b.len() && a.iter().zip(b.iter()).all(|(x, y)| x == y);
+            obs.ensure(same, "layout:transform-differs-from-row-major-twin", || {
+                format!("{what}: transform of the {layout:?} batch gives {:?}, of the same rows stored row-major {:?}", a.to_vec(), b.to_vec())
+            });
+        }
+    }
     if let Some(b) = &batch {
         obs.ensure(b.len() == pts.len(), "predict:length", || format!("{what}: {} predictions for {} rows", b.len(), pts.len()));
     }
